@@ -141,6 +141,14 @@ func factsSkeleton() {
 		{"location/location.go", "Location", "Match"}, {"location/location.go", "Location", "mergeHeader"},
 		{"location/location.go", "Location", "AddQuery"}, {"location/location.go", "Locations", "Get"},
 		{"location/location.go", "Locations", "Set"},
+		{"server/server.go", "server", "Start"}, {"server/server.go", "server", "Close"},
+		{"server/server.go", "server", "Update"}, {"server/server.go", "servers", "Reset"},
+		{"server/server.go", "", "convertConfig"},
+		{"cache/http_cache.go", "", "nowUnix"},
+		{"store/redis.go", "redisStore", "getKey"}, {"store/redis.go", "redisStore", "Get"}, {"store/redis.go", "redisStore", "Set"}, {"store/redis.go", "redisStore", "Delete"},
+		{"store/mongo.go", "mongoStore", "Get"}, {"store/mongo.go", "mongoStore", "Set"}, {"store/mongo.go", "mongoStore", "Delete"},
+		{"store/badger.go", "badgerStore", "Get"}, {"store/badger.go", "badgerStore", "Set"}, {"store/badger.go", "badgerStore", "Delete"},
+		{"main.go", "", "run"},
 	} {
 		var sk []string
 		if fd := funcDecl(parse(pr[0]), pr[1], pr[2]); fd != nil {
